@@ -944,6 +944,48 @@ fn c14_slice_owned_empty() {
     c14_slice_owned_empty_body(kani::any(), kani::any(), kani::any());
 }
 
+// Shared slices of an OVER-ALIGNED element type: the reference counts of an `Arc<[T]>` sit at an offset from the data that depends on
+// `align_of::<T>()`, so count handling must go through the real `Arc<[T]>` type, whatever T is. (The drop-recording element `D`
+// above has alignment 8; this one has 32.)
+#[repr(align(32))]
+#[derive(Clone, PartialEq, Eq, PartialOrd, Ord, Hash)]
+pub struct A32(pub u8);
+pub fn c14_slice_shared_overaligned_body(steps: u8) {
+    kani::assume(steps < 4);
+    let arc: Arc<[A32]> = Arc::from(vec![A32(7)]);
+    assert!(Arc::strong_count(&arc) == 1);
+    let c: Cow<'static, [A32]> = Cow::from_shared(arc.clone());
+    assert!(Arc::strong_count(&arc) == 2, "from_shared keeps the reference it was given");
+    if steps >= 1 {
+        let d = c.clone();
+        assert!(Arc::strong_count(&arc) == 3, "clone of a shared value takes exactly one more reference");
+        assert!(d[0].0 == 7 && d.len() == 1);
+        if steps >= 2 {
+            let e = d.clone();
+            assert!(Arc::strong_count(&arc) == 4);
+            drop(e);
+            assert!(Arc::strong_count(&arc) == 3);
+        }
+        drop(d);
+        assert!(Arc::strong_count(&arc) == 2, "dropping the clone gives its reference back");
+    }
+    if steps == 3 {
+        let v = c.into_owned();
+        assert!(v.len() == 1 && v[0].0 == 7);
+        assert!(Arc::strong_count(&arc) == 1, "into_owned of a shared value releases its reference");
+    } else {
+        drop(c);
+        assert!(Arc::strong_count(&arc) == 1, "all references returned: the caller's Arc is the only owner again");
+    }
+    kani::cover!(steps == 2);
+}
+#[cfg(kani)]
+#[kani::proof]
+#[kani::unwind(4)]
+fn c14_slice_shared_overaligned() {
+    c14_slice_shared_overaligned_body(kani::any());
+}
+
 // Two values that START at the same address are not the same value: `==`, `cmp`, `partial_cmp` of two Cow<str> borrowed from one
 // buffer with different lengths must follow the CONTENT (C03 relies on this for SharedString / KeyName / Label).
 pub fn c14_str_alias_eq_body(la: usize, lb: usize, ka: bool, kb: bool) {
